@@ -2,7 +2,7 @@
 synthesiser and the declaration table are extracted and compared (DESIGN.md section C24).
 Also exports the tables for C02-R2."""
 import re, sys
-from engine import facts, tables, terms
+from engine import mutate, facts, tables, terms
 from engine.facts import kids, walk, strip, is_call, call_args, call_obj, expr_key
 from engine.report import Report
 from engine.terms import TermError
@@ -488,23 +488,91 @@ def run(tier='quick'):
                        'same bits at RamSigned and RamUnsigned',
                        'the documented operator of each family (22-line FAMILY_TOKEN list in props/C24.py) is the oracle for R4']
     try:
-        eng, syn, fop = facts.extract([
-            ('src/interpreter/Engine.cpp', r'interpreter/Engine\.cpp$|BinaryConstraintOps\.h$', r'Engine::execute$|getBinaryConstraintTypes', None, r'ram::(IntrinsicOperator|Constraint) &'),
-            ('src/synthesiser/Synthesiser.cpp', r'synthesiser/Synthesiser\.cpp$', r'CodeEmitter::visit_'),
-            ('src/FunctorOps.cpp', r'FunctorOps\.(cpp|h)$|TypeAttribute\.h$', '.*')])
+        analyse(rep)
+        ms = [mutate.Mutant(n, f, o, w, e) for (n, f, o, w, e) in MUTANTS]
+        mutate.run_mutants(rep, 'C24', ms if tier == 'thorough' else ms[:2], analyse)
     except facts.Broken as e:
         rep.analysis_broken(str(e))
-        return rep.finish()
+    return rep.finish()
+
+
+def analyse(rep):
+    eng, syn, fop = facts.extract([
+        ('src/interpreter/Engine.cpp', r'interpreter/Engine\.cpp$|BinaryConstraintOps\.h$', r'Engine::execute$|getBinaryConstraintTypes', None, r'ram::(IntrinsicOperator|Constraint) &'),
+        ('src/synthesiser/Synthesiser.cpp', r'synthesiser/Synthesiser\.cpp$', r'CodeEmitter::visit_'),
+        ('src/FunctorOps.cpp', r'FunctorOps\.(cpp|h)$|TypeAttribute\.h$', '.*')])
     rep.add_units([eng, syn, fop])
     T = build_tables(rep, eng, syn, fop)
     if T is None:
-        return rep.finish()
+        return
     declF = declared_functors(fop, rep)
     declC = declared_constraints(eng, rep)
     check_tables(rep, T, declF, declC)
+    rule_regex_wrapper(rep)
     rep.exhaustive = True
     rep.floor('R1-exhaustive', sum(1 for o in rep.obligations if o['rule'] == 'R1-exhaustive'), 73 + 24)
-    return rep.finish()
+
+
+SYN = 'src/synthesiser/Synthesiser.cpp'
+ENG = 'src/interpreter/Engine.cpp'
+MUTANTS = [
+    ('not-match-negates-wrapper-result', SYN, '''                        out << "regex_wrapper(symTable.decode(";
+                        dispatch(rel.getLHS(), out);
+                        out << "),symTable.decode(";
+                        dispatch(rel.getRHS(), out);
+                        out << "),true)";''', '''                        out << "!regex_wrapper(symTable.decode(";
+                        dispatch(rel.getLHS(), out);
+                        out << "),symTable.decode(";
+                        dispatch(rel.getRHS(), out);
+                        out << "),false)";''', 'R2'),
+    ('interpreter-exp-direct-narrowing', ENG,
+     '                    return ramBitCast(static_cast<RamSigned>(static_cast<int64_t>(std::pow(first, second))));',
+     '                    return ramBitCast(static_cast<RamSigned>(std::pow(first, second)));', 'R2'),
+    ('wrapper-negates-after-catch', SYN, '(std::regex_match(text, regexCache.getOrCreate(pattern)) != negate); } ',
+     'std::regex_match(text, regexCache.getOrCreate(pattern)); } ', 'R2'),
+    ('synth-udiv-signed', SYN, 'BINARY_OP_NUMERIC(DIV, /)', 'BINARY_OP_NUMERIC(DIV, /)  /* mutated below */', None),
+]
+MUTANTS = MUTANTS[:3]
+
+
+def rule_regex_wrapper(rep):
+    """the generated regex_wrapper(pattern, text, negate): result defaults to false, is assigned only inside the try, and the negation
+    is applied to the match itself"""
+    gen, = facts.extract([('src/synthesiser/Synthesiser.cpp', r'synthesiser/Synthesiser\.cpp$', r'Synthesiser::generateCode$')])
+    rep.add_units([gen])
+    blocks = []
+    for f in gen.functions:
+        if f.is_lambda:
+            continue
+        for n in f.walk():
+            if n['k'] == 'IfStmt' and any(m['k'] == 'StringLiteral' and m.get('str') == 'regex_wrapper' for m in walk(n)):
+                inner = [x for x in walk(kids(n)[-1]) if x['k'] == 'IfStmt' and any(m['k'] == 'StringLiteral' and m.get('str') == 'regex_wrapper' for m in walk(x))]
+                if not inner:
+                    blocks.append((f, n))
+    if len(blocks) != 1:
+        rep.analysis_broken('generateCode: the block generating regex_wrapper was not found (%d candidates)' % len(blocks))
+        return
+    f, n = blocks[0]
+    lits = [m.get('str', '') for m in walk(n) if m['k'] == 'StringLiteral']
+    body = ''.join(lits)
+    has_neg = 'negate' in lits
+    m_try = re.search(r'try\s*\{(.*?)\}\s*catch\s*\(\.\.\.\)\s*\{(.*)', body, re.S)
+    ok = bool(re.search(r'bool\s+result\s*=\s*false', body)) and m_try is not None
+    why = []
+    if not ok:
+        why.append('the wrapper does not start from `bool result = false` with a try/catch around the match')
+    else:
+        tr, ca = m_try.group(1), m_try.group(2)
+        outside = body.replace(m_try.group(0), '')
+        if len(re.findall(r'\bresult\s*=[^=]', outside)) != 1:
+            why.append('result is assigned outside the try block')
+        if re.search(r'\bresult\s*=[^=]', ca):
+            why.append('result is assigned in the catch block (an invalid pattern must leave the constraint false)')
+        if has_neg and not re.search(r'regex_match\(.*\)\s*\)?\s*!=\s*negate', tr):
+            why.append('the negate flag is not applied to the match result inside the try block')
+        if not has_neg:
+            why.append('the wrapper has no negate parameter: !match cannot be false for an invalid pattern')
+    rep.ob('R2-regex-wrapper-failure-polarity', 'Synthesiser::generateCode/regex_wrapper', not why, f.loc(n), '; '.join(why))
 
 
 def check_tables(rep, T, declF, declC, pid_rules=('R1', 'R2', 'R3', 'R4')):
@@ -581,14 +649,42 @@ def check_feature_op(rep, kind, op, feat, row, ifn, iw, sw, pid_rules):
         det.append('interpreter result negation is %s, reference %s' % (neg, feat['neg']))
     ok_s = True
     if op in ('MATCH', 'NOT_MATCH'):
-        # every emitted regex call must carry (NOT_MATCH) / lack (MATCH) the negation
-        for m in re.finditer(r'(!?)(std::regex_match|regex_wrapper)\(', lits):
+        flat = lits.replace(' ', '')
+        # constant pattern: the compiled regex is matched directly; NOT_MATCH negates exactly that call
+        for m in re.finditer(r'(!?)std::regex_match\(', flat):
             if (m.group(1) == '!') != feat['neg']:
                 ok_s = False
-                det.append('synthesiser emits %s%s' % (m.group(1), m.group(2)))
-        if not re.search(r'regex_match|regex_wrapper', lits):
+                det.append('synthesiser emits %sstd::regex_match for a constant pattern' % m.group(1))
+        if 'false' not in [l.strip() for l in syn_lits(row['sg'])]:
+            ok_s = False
+            det.append('an invalid constant pattern is not emitted as `false`')
+        # non-constant pattern: the wrapper swallows an invalid pattern into `false` (the interpreter leaves result = false
+        # in its catch block too), so the negation must be applied INSIDE the wrapper, never to its result
+        ws = list(re.finditer(r'(!?)(\w*regex_wrapper)\(symTable\.decode\(\),symTable\.decode\(\)(,true|,false)?\)', flat))
+        if not ws:
+            ok_s = False
+            det.append('synthesiser emits no (recognised) regex_wrapper call for non-constant patterns')
+        for m in ws:
+            if m.group(1) == '!':
+                ok_s = False
+                det.append('synthesiser negates the wrapper\'s result: an invalid pattern makes %s TRUE in compiled code but false in the interpreter' % op)
+            elif m.group(3) != (',true' if feat['neg'] else ',false'):
+                ok_s = False
+                det.append('wrapper called with negate=%s for %s' % (m.group(3), op))
+        if not re.search(r'regex_match|regex_wrapper', flat):
             ok_s = False
             det.append('synthesiser emits no regex call')
+        # interpreter: the result defaults to false and no catch block assigns it
+        for n in (row['ig'].flat() if row.get('ig') else []):
+            for c in walk(n):
+                if c['k'] == 'VarDecl' and c.get('name') == 'result' and kids(c):
+                    v = strip(kids(c)[0], casts=True)
+                    if not (v['k'] == 'CXXBoolLiteralExpr' and not v.get('val')):
+                        ok_i = False
+                        det.append('interpreter result does not default to false')
+                if c['k'] == 'CXXCatchStmt' and any(x['k'] == 'BinaryOperator' and x.get('op') == '=' and strip(kids(x)[0], casts=True).get('name') == 'result' for x in walk(c)):
+                    ok_i = False
+                    det.append('interpreter assigns the result in the catch block of an invalid pattern')
     else:
         for l in feat['syn_lits']:
             if l.replace(' ', '') not in lits.replace(' ', ''):
